@@ -106,7 +106,7 @@ def c18_worker(kp, job):
             shared = set()
             TC = kp.TokenCategory
             for p in ('STRUCTURAL', 'SIGNATURES', 'EMPTY', 'BARLINES', 'IMAGE_ANNOTATIONS', 'COMMENTS'):
-                shared |= {TC[p]} | TC.nodes(TC[p])
+                shared |= {TC[x] for x in spec.documented_descendants()[p]}
             own = OWN[h]
             for sa, sb in zip(doc.tree.stages, ref_rows):
                 for na, nb in zip(sa, sb):
@@ -146,7 +146,7 @@ def c18_mixed_worker(kp, job):
     TC = kp.TokenCategory
     shared = set()
     for p in ('STRUCTURAL', 'SIGNATURES', 'EMPTY', 'BARLINES', 'IMAGE_ANNOTATIONS', 'COMMENTS'):
-        shared |= {TC[p]} | TC.nodes(TC[p])
+        shared |= {TC[x] for x in spec.documented_descendants()[p]}
     w = {'text': text}
     for st in doc.tree.stages:
         for nd in st:
